@@ -296,10 +296,10 @@ package build
 //@   opt inline=off
 //@   opt precall=off
 //@   callsite isSameFileContent trackresult same bool: result0
-//@   callsite (PathHasher).CopyHash hash_follows_the_source [C01]: arg_oldPath == from && arg_newPath == to
+//@   callsite (PathHasher).CopyHash hash_follows_the_source [C01 C03]: arg_oldPath == from && arg_newPath == to
 //@   callsite fs.RemoveAll only_a_different_file_is_replaced [C03]: arg_path == to && called("isSameFileContent") && !same
 //@   callsite fs.RecursiveCopyOrLinkFile from_source_to_output [C01 C34]: arg_from == from && arg_to == to && called("fs.RemoveAll")
-//@   ensures recorded_hash_follows_the_source [C01 C11]: result1 == nil && !old(in(to, builder.built)) ==> called("(PathHasher).CopyHash")
+//@   ensures recorded_hash_follows_the_source [C01 C11 C03]: result1 == nil && !old(in(to, builder.built)) ==> called("(PathHasher).CopyHash")
 //@   ensures same_file_is_unchanged [C03]: result1 == nil && !old(in(to, builder.built)) && same ==> !result0
 
 // ---------------------------------------------------------------------------------------------
